@@ -170,7 +170,14 @@ fn expected_record(r: &Value) -> Value {
         Some(s) => json!([s.file, s.start.row, s.start.col]),
         None => json!([]),
     };
-    let notes: Vec<Value> = d.notes().iter().map(|n| json!({"message": n.message, "at": at(n.span.as_ref())})).collect();
+    // the notes are those of the case - every one that was attached, in order (not what the built diagnostic still holds)
+    let notes: Vec<Value> = r["notes"]
+        .as_array()
+        .cloned()
+        .unwrap_or_default()
+        .iter()
+        .map(|n| json!({"message": message_text(n["msg"].as_u64().unwrap_or(1)), "at": at(span_of(n["span"].as_str().unwrap_or("none"), FILE_B).as_ref())}))
+        .collect();
     json!({"severity": r["severity"], "code": r["code"], "message": d.message(), "at": at(d.span()), "notes": notes})
 }
 
